@@ -37,8 +37,11 @@
   task ends: a sequence `Sched` is any PREFIX of the unstopped behaviour (`Chain.nil` at any point).
   Preconditions under which the arithmetic equals Python's: `interval > 0` (Python's float `%` and
   Lean's `Int.emod` agree for a positive divisor and a non-negative dividend; `interval = 0` raises
-  ZeroDivisionError in the sharp branch) and handler `timeout` unset (otherwise an iteration can fail
-  its pre-check without invoking the function).
+  ZeroDivisionError in the sharp branch). The handler's `timeout`/`retries` are modelled as
+  `execute_handler_once` applies them: the strict pre-checks before the call (`runtime ≥ timeout`,
+  `retries ≥ limit`: no call, the series fails for good) and the look-ahead checks after a failure
+  (`runtime + delay ≥ timeout`, `retries + 1 ≥ limit`: final instead of retried). `runtime` counts from
+  `started`, stamped when the state is created — at the loop top, BEFORE the idle gate.
 -/
 namespace Kopf.C10
 
@@ -57,6 +60,7 @@ structure Cfg where
   backoff : Int                     -- `handler.backoff`, else `settings.execution.default_backoff`
   errors : ErrorsMode := .temporary  -- `handler.errors`, else TEMPORARY
   retries : Option Nat := none       -- `handler.retries`
+  timeout : Option Int := none       -- `handler.timeout`
   deriving DecidableEq, Repr
 
 /-- How the timer function ended. -/
@@ -80,29 +84,41 @@ def lookaheadRetries (cfg : Cfg) (attempt : Nat) : Bool :=
   | some n => decide (attempt + 1 ≥ n)
   | none => false
 
-/-- the `except` chain of `execute_handler_once` (timeout unset); `attempt` = `state.retries` -/
-def classify (cfg : Cfg) (attempt : Nat) : Result → Outcome
+/-- `lookahead_timeout` of `execute_handler_once`: `state.runtime + (delay or backoff) >= handler.timeout` -/
+def lookaheadTimeout (cfg : Cfg) (runtime extra : Int) : Bool :=
+  match cfg.timeout with
+  | some t => decide (runtime + extra ≥ t)
+  | none => false
+
+/-- the `except` chain of `execute_handler_once`; `attempt` = `state.retries`, `runtime` = `state.runtime`
+    when the function raised (the time since the series' state was created) -/
+def classify (cfg : Cfg) (attempt : Nat) (runtime : Int) : Result → Outcome
   | .ok => .done
   | .permanent => .failed
-  | .temporary d => if lookaheadRetries cfg attempt then .failed else .retry d
+  | .temporary d =>
+    if lookaheadTimeout cfg runtime (d.getD 0) then .failed
+    else if lookaheadRetries cfg attempt then .failed else .retry d
   | .arbitrary =>
     match cfg.errors with
     | .ignored => .done
     | .permanent => .failed
-    | .temporary => if lookaheadRetries cfg attempt then .failed else .retry (some cfg.backoff)
+    | .temporary =>
+      if lookaheadTimeout cfg runtime cfg.backoff then .failed
+      else if lookaheadRetries cfg attempt then .failed else .retry (some cfg.backoff)
 
 /-! ### The carried state: `progression.State` of the single timer handler -/
 
 /-- `progression.HandlerState`, the fields the loop and `execute_handlers_once` read. -/
 structure HState where
+  started : Int             -- loop time at which this series' state was created (`from_scratch`)
   retries : Nat
   success : Bool
   failure : Bool
   delayed : Option Int      -- absolute loop time
   deriving DecidableEq, Repr
 
-/-- `State.from_scratch().with_handlers([handler])` -/
-def HState.fresh : HState := { retries := 0, success := false, failure := false, delayed := none }
+/-- `State.from_scratch().with_handlers([handler])` at loop time `now` -/
+def HState.fresh (now : Int) : HState := { started := now, retries := 0, success := false, failure := false, delayed := none }
 
 /-- `HandlerState.finished`; with one active handler this is also `State.done` -/
 def HState.finished (h : HState) : Bool := h.success || h.failure
@@ -114,14 +130,21 @@ def HState.sleeping (h : HState) (now : Int) : Bool :=
 /-- `HandlerState.awakened`: what `execute_handlers_once` selects for invocation -/
 def HState.awakened (h : HState) (now : Int) : Bool := !h.finished && !h.sleeping now
 
-/-- top of the loop: `if state.done and not state.counts.failure: state = fresh` -/
-def HState.atTop (h : HState) : HState := if h.finished && !h.failure then HState.fresh else h
+/-- top of the loop, reached at loop time `top` (before the idle gate):
+    `if state.done and not state.counts.failure: state = fresh` -/
+def HState.atTop (h : HState) (top : Int) : HState := if h.finished && !h.failure then HState.fresh top else h
+
+/-- the strict pre-checks of `execute_handler_once` at `now`: `HandlerTimeoutError` / `HandlerRetriesError`
+    instead of a call -/
+def precheckFails (cfg : Cfg) (h : HState) (now : Int) : Bool :=
+  (match cfg.timeout with | some t => decide (now - h.started ≥ t) | none => false) ||
+  (match cfg.retries with | some n => decide (h.retries ≥ n) | none => false)
 
 /-- `HandlerState.with_outcome(outcome)` at loop time `now` -/
 def HState.withOutcome (h : HState) (now : Int) : Outcome → HState
-  | .done => { retries := h.retries + 1, success := true, failure := false, delayed := none }
-  | .failed => { retries := h.retries + 1, success := false, failure := true, delayed := none }
-  | .retry d => { retries := h.retries + 1, success := false, failure := false, delayed := d.map (now + ·) }
+  | .done => { h with retries := h.retries + 1, success := true, failure := false, delayed := none }
+  | .failed => { h with retries := h.retries + 1, success := false, failure := true, delayed := none }
+  | .retry d => { h with retries := h.retries + 1, success := false, failure := false, delayed := d.map (now + ·) }
 
 /-- `min(State.delays)` read at `now`: `max(0, delayed - now)`; `0` when `delayed` is None -/
 def HState.delay (h : HState) (now : Int) : Int :=
@@ -131,7 +154,8 @@ def HState.delay (h : HState) (now : Int) : Int :=
 
 /-- One loop iteration, with the three instants the schedule depends on. -/
 structure Iter where
-  start : Int             -- `started = clock()`; the function (if any) is entered in the same instant
+  top : Int               -- the loop is at its top (after the zero-time yield): the state is re-created here if due
+  start : Int             -- `started = clock()` after the idle gate; the function (if any) is entered in the same instant
   ended : Int             -- `execute_handlers_once` returned; `with_outcomes` stamps `delayed = ended + delay`
   patched : Int           -- the post-run `patch_and_check` returned (= `ended` when the patch is empty)
   res : Option Result     -- how the function ended; `none`: nothing was awakened, nothing invoked
@@ -139,21 +163,33 @@ structure Iter where
 
 /-- The state after the iteration `it` entered with the carried state `h`. -/
 def step (cfg : Cfg) (h : HState) (it : Iter) : HState :=
+  let h1 := h.atTop it.top
   match it.res with
-  | some r => h.atTop.withOutcome it.ended (classify cfg h.atTop.retries r)
-  | none => h.atTop                                   -- `with_outcomes({})`
+  | some r => h1.withOutcome it.ended (classify cfg h1.retries (it.ended - h1.started) r)
+  | none =>
+    if h1.awakened it.start && precheckFails cfg h1 it.start then h1.withOutcome it.ended .failed   -- pre-check error
+    else h1                                                                                          -- `with_outcomes({})`
 
 /-- The `retry` kwarg the function sees in this iteration. -/
-def attemptOf (h : HState) : Nat := h.atTop.retries
+def attemptOf (h : HState) (it : Iter) : Nat := (h.atTop it.top).retries
+
+/-- `state.runtime` when the function returned/raised in this iteration. -/
+def runtimeOf (h : HState) (it : Iter) : Int := it.ended - (h.atTop it.top).started
+
+/-- The iteration invokes the function, or the strict `timeout`/`retries` pre-check ends the series there
+    (no call). -/
+def Iter.runsOrExpires (cfg : Cfg) (h : HState) (it : Iter) : Prop :=
+  it.res.isSome = true ∨ (it.res = none ∧ precheckFails cfg (h.atTop it.top) it.start = true)
 
 /-- What the code guarantees of an iteration record: time goes forward, the function is invoked exactly
-    when the carried state is awakened at `start`, and an iteration that invokes nothing takes no time
-    inside `execute_handlers_once`. -/
-def Iter.ok (h : HState) (it : Iter) : Prop :=
-  it.start ≤ it.ended ∧ it.ended ≤ it.patched ∧ it.res.isSome = h.atTop.awakened it.start ∧
+    when the carried state is awakened at `start` and passes the pre-checks, and an iteration that
+    invokes nothing takes no time inside `execute_handlers_once`. -/
+def Iter.ok (cfg : Cfg) (h : HState) (it : Iter) : Prop :=
+  it.start ≤ it.ended ∧ it.ended ≤ it.patched ∧
+  it.res.isSome = ((h.atTop it.top).awakened it.start && !precheckFails cfg (h.atTop it.top) it.start) ∧
   (it.res = none → it.ended = it.start)
 
-instance (h : HState) (it : Iter) : Decidable (it.ok h) := by unfold Iter.ok; infer_instance
+instance (cfg : Cfg) (h : HState) (it : Iter) : Decidable (it.ok cfg h) := by unfold Iter.ok; infer_instance
 
 /-- `aiotime.sleep(d)` entered at `now` returns at `now + d`, or at once when `d ≤ 0`. -/
 def sleepUntil (now d : Int) : Int := if d ≤ 0 then now else now + d
@@ -208,31 +244,37 @@ inductive Poll (idle : Int) (view : View) (start : Int) : Int → Int → Prop w
   | exit {p : Int} : ¬ (view p ≤ start) → Poll idle view start p p
   | again {p p' : Int} : view p ≤ start → Poll idle view start (sleepUntil p idle) p' → Poll idle view start p p'
 
-/-- `t'` is a possible start of the iteration that follows `it`, which left the state `h'`. -/
-def Next (cfg : Cfg) (view : View) (h' : HState) (it : Iter) (t' : Int) : Prop :=
+/-- The iteration that follows `it` (which left the state `h'`) can reach the loop top at `top'` and
+    start at `t'`. -/
+def Next (cfg : Cfg) (view : View) (h' : HState) (it : Iter) (top' t' : Int) : Prop :=
   match wake cfg h' it with
-  | .at w => Gate cfg view w t'
-  | .poll idle => ∃ p, Poll idle view it.start it.patched p ∧ Gate cfg view p t'
+  | .at w => top' = w ∧ Gate cfg view w t'
+  | .poll idle => Poll idle view it.start it.patched top' ∧ Gate cfg view top' t'
   | .stop => False
 
-/-- `t'` is a possible start of the first iteration of a timer task spawned at `spawn`. -/
-def First (cfg : Cfg) (view : View) (spawn t' : Int) : Prop :=
-  Gate cfg view (initialWake cfg spawn) t'
+/-- The first iteration of a timer task spawned at `spawn` can reach the loop top at `top'` and start at `t'`. -/
+def First (cfg : Cfg) (view : View) (spawn top' t' : Int) : Prop :=
+  top' = initialWake cfg spawn ∧ Gate cfg view top' t'
 
 /-- Iterations following `it` (entered with the carried state `h`) within one timer task. -/
 inductive Chain (cfg : Cfg) (view : View) : HState → Iter → List Iter → Prop where
   | nil (h : HState) (it : Iter) : Chain cfg view h it []
   | cons {h : HState} {it it' : Iter} {its : List Iter} :
-      Next cfg view (step cfg h it) it it'.start → it'.ok (step cfg h it) →
+      Next cfg view (step cfg h it) it it'.top it'.start → it'.ok cfg (step cfg h it) →
       Chain cfg view (step cfg h it) it' its → Chain cfg view h it (it' :: its)
+
+/-- the state created after the initial delay, before the loop -/
+def initState (cfg : Cfg) (spawn : Int) : HState := HState.fresh (initialWake cfg spawn)
 
 /-- The iteration sequence of one timer task spawned at `spawn` (any prefix of it: a stop truncates). -/
 def Sched (cfg : Cfg) (view : View) (spawn : Int) : List Iter → Prop
   | [] => True
-  | it :: its => First cfg view spawn it.start ∧ it.ok HState.fresh ∧ Chain cfg view HState.fresh it its
+  | it :: its => First cfg view spawn it.top it.start ∧ it.ok cfg (initState cfg spawn) ∧
+      Chain cfg view (initState cfg spawn) it its
 
 /-- The carried state with which the `n`-th iteration of a sequence is entered. -/
-def stateAt (cfg : Cfg) (its : List Iter) (n : Nat) : HState := (its.take n).foldl (step cfg) HState.fresh
+def stateAt (cfg : Cfg) (spawn : Int) (its : List Iter) (n : Nat) : HState :=
+  (its.take n).foldl (step cfg) (initState cfg spawn)
 
 /-! ### `idle_reset_time` derived from the history of processed events
 
@@ -272,20 +314,23 @@ def viewStep (t : Int) (s : Int × Option Nat) (e : Ev) : Int × Option Nat :=
 def viewOf (created : Int) (evs : List Ev) (t : Int) : Int :=
   (evs.foldl (viewStep t) (created, none)).1
 
-/-- Times at which the object's essence changed from the previously processed version (the first sight
-    of the object counts): the property's "essential changes", as far as the operator can see them. -/
-def essentialTimes : Option Nat → List Ev → List Int
+/-- Times of the essential changes after an event with essence `prev`: the essence differs from the
+    previously processed version. -/
+def essentialAfter : Nat → List Ev → List Int
   | _, [] => []
-  | prev, e :: es => (if prev = some e.ess then [] else [e.t]) ++ essentialTimes (some e.ess) es
+  | prev, e :: es => (if prev = e.ess then [] else [e.t]) ++ essentialAfter e.ess es
+
+/-- Times at which this operator process sees an essential change of the object. The first event of the
+    memory is one when the object differs from what was last handled (a new object, a change made while
+    no operator was running, or no last-handled record at all); a first sight of an unchanged, already
+    handled object (operator restart) is NOT a change of the object. -/
+def essentialTimes : List Ev → List Int
+  | [] => []
+  | e :: es => (if e.lastHandled = some e.ess then [] else [e.t]) ++ essentialAfter e.ess es
 
 /-- The property's idle clause in full: no run starts within the idle time after an essential change. -/
 def FullIdle (idle : Int) (evs : List Ev) (its : List Iter) : Prop :=
-  ∀ it ∈ its, it.res.isSome = true → ∀ c ∈ essentialTimes none evs, c ≤ it.start → idle ≤ it.start - c
-
-/-- The memory (hence `idle_reset_time`'s initial value, the loop time of its creation) is created by the
-    first event's `memories.recall`: it is not older than the first processed event. -/
-def CreatedByFirstEvent (created : Int) (evs : List Ev) : Prop :=
-  ∀ e, evs.head? = some e → e.t ≤ created
+  ∀ it ∈ its, it.res.isSome = true → ∀ c ∈ essentialTimes evs, c ≤ it.start → idle ≤ it.start - c
 
 /-! ### Executable form (for the step comparison with the real operator)
 
@@ -293,7 +338,7 @@ The same loops with fuel, over a *partial* view (the reads that were observed). 
 abbrev PView := Int → Option Int
 
 inductive Res where
-  | start (t : Int)
+  | start (top t : Int) -- the loop top is reached at `top`, the iteration starts at `t`
   | ended                -- the loop broke (one-shot timer)
   | noObs (t : Int)     -- the model wants to read `idle_reset_time` at `t`, nothing was observed there
   | diverged             -- fuel exhausted (e.g. `idle ≤ 0` in the poll loop: the real loop spins)
@@ -304,19 +349,20 @@ def idleWaitN (idle : Int) (pv : PView) : Nat → Int → Res
   | n + 1, t =>
     match pv t with
     | none => .noObs t
-    | some v => if t - v < idle then idleWaitN idle pv n (v + idle) else .start t
+    | some v => if t - v < idle then idleWaitN idle pv n (v + idle) else .start t t
 
+/-- the gate entered at `t` (the loop top) -/
 def gateN (cfg : Cfg) (pv : PView) (n : Nat) (t : Int) : Res :=
   match cfg.idle with
-  | none => .start t
-  | some idle => idleWaitN idle pv n t
+  | none => .start t t
+  | some idle => (match idleWaitN idle pv n t with | .start _ t' => .start t t' | other => other)
 
 def pollN (idle : Int) (pv : PView) (start : Int) : Nat → Int → Res
   | 0, _ => .diverged
   | n + 1, p =>
     match pv p with
     | none => .noObs p
-    | some v => if v ≤ start then pollN idle pv start n (sleepUntil p idle) else .start p
+    | some v => if v ≤ start then pollN idle pv start n (sleepUntil p idle) else .start p p
 
 /-- start of the iteration that follows `it`, which left the state `h'` -/
 def nextStartN (cfg : Cfg) (pv : PView) (n : Nat) (h' : HState) (it : Iter) : Res :=
@@ -324,7 +370,7 @@ def nextStartN (cfg : Cfg) (pv : PView) (n : Nat) (h' : HState) (it : Iter) : Re
   | .at w => gateN cfg pv n w
   | .poll idle =>
     match pollN idle pv it.start n it.patched with
-    | .start p => gateN cfg pv n p
+    | .start _ p => gateN cfg pv n p
     | other => other
   | .stop => .ended
 
@@ -338,14 +384,14 @@ def Extends (pv : PView) (view : View) : Prop := ∀ t v, pv t = some v → view
 def chainCheck (cfg : Cfg) (pv : PView) (n : Nat) : HState → Iter → List Iter → Bool
   | _, _, [] => true
   | h, it, it' :: rest =>
-    decide (nextStartN cfg pv n (step cfg h it) it = .start it'.start) && decide (it'.ok (step cfg h it)) &&
+    decide (nextStartN cfg pv n (step cfg h it) it = .start it'.top it'.start) && decide (it'.ok cfg (step cfg h it)) &&
       chainCheck cfg pv n (step cfg h it) it' rest
 
 def schedCheck (cfg : Cfg) (pv : PView) (n : Nat) (spawn : Int) : List Iter → Bool
   | [] => true
   | it :: rest =>
-    decide (firstStartN cfg pv n spawn = .start it.start) && decide (it.ok HState.fresh) &&
-      chainCheck cfg pv n HState.fresh it rest
+    decide (firstStartN cfg pv n spawn = .start it.top it.start) && decide (it.ok cfg (initState cfg spawn)) &&
+      chainCheck cfg pv n (initState cfg spawn) it rest
 
 /-! ### Vocabulary of the translator (`Kopf/Extracted/C10.lean` is generated over these) -/
 
